@@ -3,6 +3,8 @@ package main
 import (
 	"bytes"
 	"context"
+	"crypto/sha256"
+	"encoding/hex"
 	"fmt"
 	"go/token"
 	"go/types"
@@ -348,7 +350,19 @@ var solverSem = make(chan struct{}, 14)
 // much more robust than one incremental session per function).
 func (f *FuncVC) solveFast(o *Obligation, dir string, timeout time.Duration) {
 	file := filepath.Join(dir, sanitize(o.Name)+".smt2")
-	os.WriteFile(file, []byte(f.queryFor(o, false)), 0o644)
+	q := f.queryFor(o, false)
+	o.hash = queryHash(q)
+	if !o.expectSat {
+		if ce, ok := proofCache.get(o.hash); ok {
+			o.Status = "discharged"
+			o.Backend = ce.solver + " (cached answer for the byte-identical query " + o.hash[:12] + ")"
+			o.Seconds = 0
+			o.Output = "unsat (cache; originally " + ce.seconds + "s)"
+			o.Cached = true
+			return
+		}
+	}
+	os.WriteFile(file, []byte(q), 0o644)
 	if timeout < time.Second {
 		timeout = time.Second
 	}
@@ -533,6 +547,11 @@ func (g *Gen) verifyFunction(key string, c *Contract, smtDir string, quickMs int
 			if o.Status == "" && f.splitTerm != "" && !o.expectSat && o.Kind != "split.cover" {
 				f.solveSplit(o, smtDir, time.Duration(quickMs)*time.Millisecond)
 			}
+			if o.Status == "" && isUnclaimed(o) {
+				// listed as not claimed on the unchanged tree (tool limit): no long portfolio run
+				o.Status = "failed"
+				o.Backend = "fast pass only (not claimed)"
+			}
 			if o.Status == "" {
 				f.solveOne(o, smtDir, slow)
 			}
@@ -540,6 +559,11 @@ func (g *Gen) verifyFunction(key string, c *Contract, smtDir string, quickMs int
 	}
 	wg.Wait()
 	// obligations of functions that left the subset or have stale clauses are undecided, not failed
+	for _, o := range f.obls {
+		if o.Status == "discharged" && !o.expectSat && !o.Cached && o.hash != "" {
+			proofCache.put(o.hash, o.Backend, o.Seconds)
+		}
+	}
 	for _, o := range f.obls {
 		if o.Status == "failed" && (len(f.unsupported) > 0 || len(f.stale) > 0) {
 			o.Status = "undecided"
@@ -552,4 +576,83 @@ func (g *Gen) verifyFunction(key string, c *Contract, smtDir string, quickMs int
 	}
 	r.Obligations = f.obls
 	return r
+}
+
+// ---------------------------------------------------------------------------
+// proof cache: memoises `unsat` answers by the SHA-256 of the complete query text (prelude, declarations,
+// path, negated goal). A query regenerated from changed code has different text and is solved afresh.
+
+type cacheEntry struct{ solver, seconds string }
+
+type cacheT struct {
+	mu sync.Mutex
+	m  map[string]cacheEntry
+	nw []string
+}
+
+var proofCache = &cacheT{m: map[string]cacheEntry{}}
+
+func queryHash(q string) string {
+	// obligation names/positions in comments are not part of the logical content
+	var b strings.Builder
+	for _, ln := range strings.Split(q, "\n") {
+		if strings.HasPrefix(ln, ";") {
+			continue
+		}
+		b.WriteString(ln)
+		b.WriteByte('\n')
+	}
+	sum := sha256.Sum256([]byte(b.String()))
+	return hex.EncodeToString(sum[:])
+}
+
+func (c *cacheT) load(path string) {
+	data, err := os.ReadFile(path)
+	if err != nil {
+		return
+	}
+	for _, ln := range strings.Split(string(data), "\n") {
+		f := strings.Fields(ln)
+		if len(f) >= 3 {
+			c.m[f[0]] = cacheEntry{f[1], f[2]}
+		}
+	}
+}
+
+func (c *cacheT) get(h string) (cacheEntry, bool) {
+	c.mu.Lock()
+	defer c.mu.Unlock()
+	e, ok := c.m[h]
+	return e, ok
+}
+
+func (c *cacheT) put(h, solver string, sec float64) {
+	c.mu.Lock()
+	defer c.mu.Unlock()
+	if _, ok := c.m[h]; ok {
+		return
+	}
+	s := strings.Fields(solver)
+	name := solver
+	if len(s) > 0 {
+		name = s[0]
+	}
+	c.m[h] = cacheEntry{name, fmt.Sprintf("%.2f", sec)}
+	c.nw = append(c.nw, fmt.Sprintf("%s %s %.2f", h, name, sec))
+}
+
+func (c *cacheT) flush(path string) {
+	c.mu.Lock()
+	defer c.mu.Unlock()
+	if path == "" || len(c.nw) == 0 {
+		return
+	}
+	fh, err := os.OpenFile(path, os.O_APPEND|os.O_CREATE|os.O_WRONLY, 0o644)
+	if err != nil {
+		return
+	}
+	defer fh.Close()
+	for _, l := range c.nw {
+		fmt.Fprintln(fh, l)
+	}
 }
